@@ -65,6 +65,9 @@ POSITIONS = {
     'thmtitle': ('\\begin{{zzthm}}[{{H {X}}}]t\\end{{zzthm}}', False),
     'emph': ('e \\emph{{E {X}}} f', False),
     'doctitle': ('\\title{{W {X}}}\\author{{au}}\\maketitle body', False),
+    # the note of a citation and the label of a bibliography entry
+    'citenote': ('see \\cite[N {X}]{{zka}} more \\begin{{thebibliography}}{{9}}\\bibitem{{zka}} A\\end{{thebibliography}}', False),
+    'biblabel': ('see \\cite{{zkb}} more \\begin{{thebibliography}}{{9}}\\bibitem[{{L {X}}}]{{zkb}} B\\end{{thebibliography}}', False),
     # text that stands alone in its node, after a raw-markup passage (html package) spelled with the very same characters
     'afterraw': ('\\begin{{rawhtml}}<i class="r">raw</i>\\end{{rawhtml}} r \\texttt{{{X}}} s \\begin{{rawhtml}}&lt;\\end{{rawhtml}} '
                  '\\textbf{{{X}}}', False),
@@ -84,7 +87,7 @@ CONFIGS = {
 def document(fills):
     """fills: {position: text to insert (already LaTeX-spelled)}; unfilled positions are absent"""
     body = []
-    order = ['doctitle', 'afterraw', 'para', 'sectitle', 'subtitle', 'parenttitle', 'caption', 'footnote', 'item', 'term', 'cell', 'verbatim', 'verb',
+    order = ['doctitle', 'afterraw', 'citenote', 'biblabel', 'para', 'sectitle', 'subtitle', 'parenttitle', 'caption', 'footnote', 'item', 'term', 'cell', 'verbatim', 'verb',
              'quote', 'thmtitle', 'emph']
     for p in order:
         if p in fills:
@@ -138,12 +141,15 @@ def events(text):
     return p.ev
 
 
-def diff_streams(a, b, subs):
-    """a = marker run, b = payload run; subs = [(marker, displayed payload)].  -> list of difference records"""
+def diff_streams(a, b, subs, loose_ws=False):
+    """a = marker run, b = payload run; subs = [(marker, displayed payload)].  -> list of difference records.
+    loose_ws: text is compared with white space removed (positions whose template puts every item of the argument on a
+    line of its own, so that the white space depends on how many nodes the payload parses into)"""
     def sub(s):
         for m, d in subs:
             s = s.replace(m, d)
         return s
+    ws = (lambda t: ''.join(t.split())) if loose_ws else (lambda t: t)
     diffs = []
     n = min(len(a), len(b))
     i = 0
@@ -153,7 +159,7 @@ def diff_streams(a, b, subs):
             diffs.append(('structure', i, repr(x)[:120], repr(y)[:120]))
             return diffs
         if x[0] == 'data':
-            if sub(x[1]) != y[1]:
+            if ws(sub(x[1])) != ws(y[1]):
                 diffs.append(('text', i, sub(x[1])[:160], y[1][:160]))
         elif x[0] == 'start':
             if x[1] != y[1]:
@@ -226,7 +232,7 @@ def judge(case):
         except Exception as e:
             diffs.append(('parse', 0, fn, '%s: %s' % (type(e).__name__, e)))
             continue
-        for d in diff_streams(ea, eb, subs):
+        for d in diff_streams(ea, eb, subs, loose_ws=any(p_ == 'citenote' for p_, _x in case['fills'])):
             diffs.append(d + (fn,))
         judge.digest = core.h64((getattr(judge, 'digest', 0), fn, [e[:2] for e in eb if e[0] != 'data'],
                                  [e[1] for e in eb if e[0] == 'data' and any(d in e[1] for m, d in subs)]))
@@ -303,6 +309,8 @@ def run(tier, seed, rep):
     for cfgname in CONFIGS:
         for pos in POSITIONS:
             for pl in (PAYLOADS if pos != 'afterraw' else RAW_TWINS + PAYLOADS[:4]):
+                if pos == 'citenote' and ']' in pl:
+                    continue        # the note is written without protecting braces
                 for esc in (0, 1):
                     if quick and esc and not (cfgname == 'h5' or any(ord(c) > 127 for c in pl)):
                         continue
